@@ -3,6 +3,7 @@ NEXT RNext
 CONSTANTS
   Bases <- BasesAll
   Shifts <- ShiftsAll
+  Stretches <- StretchAll
   MaxLevel = 12
 CONSTRAINT LevelBound
 INVARIANT RConsistent
